@@ -24,6 +24,9 @@ def _run(cmd, timeout=600):
 
 
 def try_native(pid, ob):
+    # (0) a bounded stand-in that failed carries its own concrete failing input and command
+    if ob.get("kind") == "bounded" and ob.get("command") and "REPRODUCED" in ob.get("detail", ""):
+        return {"reproduced": True, "how": "bounded exhaustive run of the real function", "command": ob["command"], "output": ob.get("detail", "")[-1500:]}
     findings = []
     p = os.path.join(ROOT, "known_findings.json")
     if os.path.exists(p):
